@@ -386,9 +386,31 @@ func (c *C15) Run(x *engine.Ctx) *engine.Violation {
 		defer os.Remove(path)
 		x.S.Count("read_via_ReadSystemFromFile")
 	}
-	start := time.Now()
 	o := readPrefix(prefix, style, cuts, path)
-	_ = start
+	if len(prefix) <= 16 && o.err != nil && o.pan == nil && !o.hang {
+		// header-sized prefixes are cheap: push them through every entry point, not only the drawn one
+		for alt := 0; alt < 3; alt++ {
+			if alt == style {
+				continue
+			}
+			ap := ""
+			if alt == 2 {
+				ap = filepath.Join(c.scratch, fmt.Sprintf("c15h-%d-%d.prefix", os.Getpid(), x.Run))
+				if err := os.WriteFile(ap, prefix, 0o644); err != nil {
+					panic(err)
+				}
+			}
+			o2 := readPrefix(prefix, alt, []int{1, 3, 5}, ap)
+			if ap != "" {
+				os.Remove(ap)
+			}
+			x.S.Eval(1)
+			if o2.hang || o2.pan != nil || o2.err == nil {
+				o, style = o2, alt
+				break
+			}
+		}
+	}
 	x.S.Eval(1)
 	sec := sectionOf(ends, int64(len(prefix)))
 	x.S.Count("probe:prefix_ends_in_" + sec)
@@ -403,7 +425,7 @@ func (c *C15) Run(x *engine.Ctx) *engine.Violation {
 	if x.S.WantSample() && enumerated && len(prefix) > 8 {
 		x.S.Sample(map[string]any{"format": format, "file_bytes": ends[3], "prefix_bytes": len(prefix), "section": sec, "fault": fault, "reader": []string{"bytes.Reader", "short reads", "ReadSystemFromFile"}[style], "result": fmt.Sprint(o.err)})
 	}
-	where := fmt.Sprintf("%s format, prefix of %d of %d bytes (ends in %s), %s", format, len(prefix), ends[3], sec, fault)
+	where := fmt.Sprintf("%s format, prefix of %d of %d bytes (ends in %s), %s, read through %s", format, len(prefix), ends[3], sec, fault, []string{"UnsafeReadFrom(bytes.Reader)", "UnsafeReadFrom(short reads)", "ReadSystemFromFile"}[style])
 	switch {
 	case o.hang:
 		return engine.Violatef("C15/read-of-truncated-file-hangs/"+sec, "%s: no return within the watchdog", where)
@@ -636,6 +658,9 @@ func (c *C15) cliOnPrefix(x *engine.Ctx, format string, prefix []byte, ends [4]i
 	where := fmt.Sprintf("`gnark-mbu %s` on a %s-format keys file truncated to %d of %d bytes (ends in %s)", cmdName, format, len(prefix), ends[3], sec)
 	if r.TimedOut {
 		return engine.Violatef("C15/cli-keeps-running-on-truncated-file/"+cmdName, "%s: still running after 90 s (a server that came up on a half-loaded system, or a hang)", where)
+	}
+	if bytes.Contains(r.Stderr, []byte("panic: ")) || bytes.Contains(r.Stderr, []byte("goroutine 1 [running]")) {
+		return engine.Violatef("C15/cli-panics-on-truncated-file/"+cmdName, "%s: the process crashed with a Go panic (exit %d): %s", where, r.Exit, ops.Tail(r.Stderr, 300))
 	}
 	if r.Exit == 0 {
 		return engine.Violatef("C15/cli-exits-zero-on-truncated-file/"+cmdName, "%s: exit status 0", where)
